@@ -32,7 +32,8 @@ REAL_SF = getattr(BarrelList, '_size_factor', 1520)
 CLASSES = (HeapPriorityQueue, SortedPriorityQueue)
 FEAT = {'split': 'sorted backend split into several sub-lists', 'readd': 're-add of a live task',
         'remove': 'remove of a live task', 'ties': 'equal effective priorities',
-        'key': 'priority_key given'}
+        'key': 'priority_key given',
+        'tombstones': 'hundreds of removed entries deep in the backend (few at the head)'}
 HDR = ('from boltons.queueutils import HeapPriorityQueue, SortedPriorityQueue\n'
        'from boltons.listutils import BarrelList\n')
 
@@ -71,7 +72,7 @@ class FailBuf:
             for fs, (size, witness, detail, snip, cnt) in slot.items():
                 if any(o < fs for o in slot):
                     continue
-                wclass = 'needs: ' + '; '.join(FEAT[f] for f in sorted(fs)) if fs else 'any history'
+                wclass = 'needs: ' + '; '.join(FEAT.get(f, f) for f in sorted(fs)) if fs else 'any history'
                 for _ in range(cnt):
                     H.fail(clause, site, wclass, witness, detail, snip)
 
@@ -452,6 +453,52 @@ def queue_large(H, buf, N, seed):
         H.ev(key=('large-drain', k), nontrivial=True, part='queue_large')
 
 
+def queue_churn(H, buf, live_n, ops, seed):
+    """few live tasks, very many tombstones: every re-add leaves a dead entry behind, so the backend grows to hundreds of
+    mostly-dead entries (the regime in which any cleanup of removed entries other than culling at the head would act)."""
+    BarrelList._size_factor = REAL_SF
+    qs = [c() for c in CLASSES]
+    M = RefPriorityQueue()
+    rnd = lcg(seed + 29)
+    alive = [True, True]
+    wit = dict(live_tasks=live_n, operations=ops, kind='re-add churn')
+    snip = (HDR + 'import random\nrnd = random.Random(3)\nfor Q in (HeapPriorityQueue, SortedPriorityQueue):\n    q = Q(); ref = {}\n'
+            '    n = 0\n    for i in range(%d):\n        t = rnd.randrange(%d); p = rnd.randrange(50)\n        q.add(t, p); n += 1; ref[t] = (-p, n)\n'
+            '    out = [q.pop() for _ in range(len(ref))]\n    assert out == sorted(ref, key=ref.get), (Q.__name__, out)\n' % (ops, live_n))
+
+    def both(name, args, exp):
+        for k, q in enumerate(qs):
+            if alive[k]:
+                o = outcome((q, name), args)
+                if (exp == 'noraise' and o[0] != 'ret') or (exp != 'noraise' and o != exp):
+                    alive[k] = False
+                    buf.add('highest_priority_fifo', '%s.%s' % (CLASSES[k].__name__, name), {'readd', 'tombstones'}, wit,
+                            '%s%r -> %r, required %r (live %d, after %d operations)' % (name, args, o, exp, len(M), i), snip)
+
+    # two tasks of very high priority stay at the head for the whole run, so the tombstones of the churning tasks sink
+    # into the backend instead of being culled at the head by peek/pop
+    for t in (0, 1):
+        M.add(t, 1000)
+        both('add', (t, 1000), 'noraise')
+    i = 0
+    for i in range(ops):
+        t = 2 + next(rnd) % max(1, live_n - 2)
+        pr = next(rnd) % 50
+        M.add(t, pr)
+        both('add', (t, pr), 'noraise')
+        if i % 97 == 0:
+            both('peek', (), ('ret', M.first()))
+        H.ev(key=('churn', live_n, i), nontrivial=True, part='queue_churn')
+    order = M.order()
+    for k, q in enumerate(qs):
+        if alive[k]:
+            got = [outcome((q, 'pop')) for _ in order]
+            want = [('ret', t) for t in order]
+            if got != want or outcome(len, (q,)) != ('ret', 0):
+                buf.add('highest_priority_fifo', '%s.pop' % CLASSES[k].__name__, {'readd', 'tombstones'}, wit,
+                        'drain after churn: %r, required %r' % (got[:8], want[:8]), snip)
+
+
 def run():
     H = Harness('C10',
                 rule='a case is one (size factor, history) on both queue classes, judged at its last call and then '
@@ -479,6 +526,8 @@ def run():
         if shape is not None and len(shape) < 2:
             H.note_truncated('real-factor BarrelList run ended with a single sub-list: %r' % (shape,))
         queue_large(H, buf, 45000 if H.thorough else 23500, H.seed)
+        for live_n in (8, 40, 200):
+            queue_churn(H, buf, live_n, 2500, H.seed)
         if H.thorough:
             queue_large(H, buf, 26000, H.seed + 1)
         plan = ((1, 7, 9, .12), (0.5, 7, 9, .2), (2, 7, 9, .25)) if not H.thorough else \
